@@ -201,9 +201,11 @@ def check(ctx):
                                 field_ok = False
                                 for c, n in recvs:
                                     recv = c.func.value
-                                    if isinstance(a_field, ast.Name) and isinstance(recv, ast.Name) and a_field.id == recv.id:
+                                    if isinstance(a_field, ast.Name) and isinstance(recv, ast.Name) and (
+                                            a_field.id == recv.id or same_name_value(f, a_field, None, recv, None)):
                                         field_ok = True
-                                    if isinstance(a_field, ast.Name) and any(isinstance(a, ast.Name) and a.id == a_field.id for a in c.args):
+                                    if isinstance(a_field, ast.Name) and any(isinstance(a, ast.Name) and (
+                                            a.id == a_field.id or same_name_value(f, a_field, None, a, None)) for a in c.args):
                                         field_ok = True     # self._validate_field(config, field)
                                     if isinstance(a_field, ast.Constant) and a_field.value is None:
                                         field_ok = True
